@@ -181,17 +181,17 @@ func init() {
 				u.Describe(reflect.TypeOf(tlb.ShardStateUnsplitData{})))
 		},
 		"tlb.CryptoSignature": func(u *Universe, body *Desc) *Desc {
-		return auxStruct(u.Describe(reflect.TypeOf(tlb.CryptoSignatureSimpleData{})),
-			u.Describe(reflect.TypeOf(tlb.SignedSertificate{})), u.Describe(reflect.TypeOf(tlb.CryptoSignatureSimple{})))
-	},
-	"tlb.McBlockExtra": func(u *Universe, body *Desc) *Desc {
-		var ds []*Desc
-		for _, f := range body.Fields {
-			ds = append(ds, f.T)
-		}
-		return auxStruct(ds...)
-	},
-	"tlb.McStateExtraOther": func(u *Universe, body *Desc) *Desc {
+			return auxStruct(u.Describe(reflect.TypeOf(tlb.CryptoSignatureSimpleData{})),
+				u.Describe(reflect.TypeOf(tlb.SignedSertificate{})), u.Describe(reflect.TypeOf(tlb.CryptoSignatureSimple{})))
+		},
+		"tlb.McBlockExtra": func(u *Universe, body *Desc) *Desc {
+			var ds []*Desc
+			for _, f := range body.Fields {
+				ds = append(ds, f.T)
+			}
+			return auxStruct(ds...)
+		},
+		"tlb.McStateExtraOther": func(u *Universe, body *Desc) *Desc {
 			var ds []*Desc
 			for _, f := range body.Fields {
 				ds = append(ds, f.T)
